@@ -75,7 +75,9 @@ Inductive action :=
 | ASend (l : N) (pi k c : nat)
 | ARecv (f : N) (m : areq)
 | AAck (l v : N) (i : nat)
-| ACommit (l : N) (k : nat) (Q : list N).
+| ACommit (l : N) (k : nat) (Q : list N)
+| AFlush (n : N) (k : nat)
+| ACrash (n : N) (c : nat).
 
 Definition is_leader (r : Role) : bool := match r with Leader => true | _ => false end.
 Definition is_cand (r : Role) : bool := match r with Candidate => true | _ => false end.
@@ -99,6 +101,8 @@ Definition apply (a : action) (s : state) : state :=
   | ARecv f m => do_recv f m s
   | AAck l v i => do_ack l v i s
   | ACommit l k _ => do_commit l k s
+  | AFlush n k => do_flush n k s
+  | ACrash n c => do_crash n c s
   end.
 
 Definition guardb (a : action) (s : state) : bool :=
@@ -134,6 +138,8 @@ Definition guardb (a : action) (s : state) : bool :=
       is_leader (role x) && (commit x <? k)%nat && (k <=? length (log x))%nat &&
       (term_at (log x) k =? cur x) && majorityb (cfg V0 s l) Q &&
       forallb (fun v => (v =? l) || match_geb (matchIdx x) v k) Q
+  | AFlush n k => (flushed (st s n) <=? k)%nat && (k <=? length (log (st s n)))%nat
+  | ACrash n c => (c <=? commit (st s n))%nat
   end.
 End Run.
 
@@ -190,6 +196,8 @@ Proof.
       apply orb_true_iff in H0. destruct H0 as [H0|H0].
       * left. apply N.eqb_eq; assumption.
       * right. apply match_geb_ok; assumption.
+  - apply SFlush. apply Nat.leb_le in H, H0. lia.
+  - apply SCrash. apply Nat.leb_le; assumption.
 Qed.
 
 Fixpoint run (V0 : list N) (gb : bool) (acts : list action) (s : state) : option state :=
